@@ -58,6 +58,12 @@ impl HipEstimator {
     fn update(&mut self, lg_config_k: u8, old_value: u8, new_value: u8)
       ensures final(self).log() == old(self).log().push((old_value, new_value))
     { unimplemented!() }
+    // the out-of-order flag (C03 flag flow); set_out_of_order writes the flag (and clears the float accumulator when setting it)
+    uninterp spec fn ooo(&self) -> bool;
+    #[verifier::external_body]
+    fn set_out_of_order(&mut self, ooo: bool)
+      ensures final(self).ooo() == ooo
+    { unimplemented!() }
 }
 
 // ================= hll/array8.rs (real code + overlay) =================
@@ -232,6 +238,25 @@ lemma_k ( self . lg_config_k ) ;
 lemma_shl_usize ( self . lg_config_k ) ;
 }
 1 << self . lg_config_k }
+
+
+    // opaque (same contract as in unit hll_array8_merge): recounts num_zeros (iterator count) and recomputes the float kxq sums;
+    // registers, lg_k and the out-of-order flag are untouched
+    #[verifier::external_body]
+    fn rebuild_cached_values(&mut self)
+      requires old(self).shape()
+      ensures final(self).bytes@ == old(self).bytes@, final(self).lg_config_k == old(self).lg_config_k,
+        final(self).num_zeros == cnt0(final(self).regs(), final(self).k()), final(self).estimator.ooo() == old(self).estimator.ooo()
+    { unimplemented!() }
+
+    // the clauses unit hll_union assumes for this method (there: regs()/lg()/ooo()/cache_ok() over the abstract Array8; cache_ok is wf() here)
+    fn rebuild_estimator_from_registers ( & mut self ) requires old ( self ) . shape ( ) ensures
+/*@C03.rebuild.regs*/ final ( self ) . regs ( ) == old ( self ) . regs ( ) , final ( self ) . lg_config_k == old ( self ) . lg_config_k ,
+/*@C03.flagflow.merged*/ final ( self ) . estimator . ooo ( ) ,
+/*@C03.rebuild.cache*/ final ( self ) . wf ( ) , {
+self . rebuild_cached_values ( ) ;
+self . estimator . set_out_of_order ( true ) ;
+}
 
 
     fn set_register ( & mut self , slot : usize , value : u8 ) requires old ( self ) . shape ( ) , slot < old ( self ) . k ( ) ensures final ( self ) . shape ( ) , final ( self ) . lg_config_k == old ( self ) . lg_config_k , final ( self ) . num_zeros == old ( self ) . num_zeros , final ( self ) . estimator == old ( self ) . estimator ,
